@@ -147,6 +147,15 @@ Example C11_refuted_symlinked_layerconfig :
   conj1 cfg0 w3 (view_of_model cfg0 w3 (env0 (CrashAt 99)) (CRebase (bs "lnk") (bs "base1")) []) = false.
 Proof. vm_compute. reflexivity. Qed.
 
+(* C11 (b), hypothesis cmd_ok (CEdit): the manual command "somebody overwrites a file by
+   hand" can of course put anything into a layerconfig; the theorems cover hand edits of
+   other files only *)
+Example C11_manual_edit_of_layerconfig :
+  conj1 cfg0 w0 (view_of_model cfg0 w0 (env0 NoFault) (CEdit (bs "/lc/layers/dev1/layerconfig") (bs "import bind /x /y" ++ nlc)) []) = false
+  /\ cmd_ok cfg0 fs0 (CEdit (bs "/lc/layers/dev1/layerconfig") (bs "x")) = false
+  /\ wf_world cfg0 fs0 (CEdit (bs "/lc/layers/dev1/build/notes.txt") (bs "x")) = true.
+Proof. vm_compute. repeat split. Qed.
+
 (* C11 (b), the remaining hypotheses only exclude lists that are no file trees: a regular file
    that has children, renamed to the name "layerconfig" (cmd_ok, rename) ... *)
 Definition fs4 : fsT :=
